@@ -632,6 +632,51 @@ extend("C19",
        "extraction by symbolic execution is validated by sampled correspondence (1250 points per quick run), not proved; theorems are over "
        "rationals, not floats.")
 
+extend("C09",
+       "ASCII read-back and byte-identical rewrite are proved without assumptions about the host: format(.16E) and float() are both "
+       "modelled (parseEText, roundToDouble, eText) and compared with Python on every run, each ASCII field's accepted domain is a "
+       "decidable predicate, and rwLong has the empty ASCII domain (file_roundtrip_ascii, schema_roundtrip_ascii); whole-block ISOTXS "
+       "scatter storage, COMPXS scatter columns and the adjoint group reversal are proved inverse maps (scat_roundtrip, "
+       "compxs_column_roundtrip, adjointOrder_involutive); second-generation cycles (read -> write -> read -> write) run for every format.",
+       "not proved: float(format(x)) = x for all doubles (a per-value decidable domain condition, evaluated on the values written); "
+       "double->single rounding of rwFloat; sparse-container internals beyond the index maps.")
+extend("C17",
+       "An options-enforcing setting accepts exactly its current option list however it was filled (definition, plugins, repeated "
+       "additions; optSchema_enforced_iff, outside_options_rejected_after_add), and a copy made with an empty modification set is a new, "
+       "mutually independent object (modified_empty_is_independent_copy). Tied by run-time option additions on every setting with "
+       "options, by plugins registered with the application (neutronicsKernel), and by independence probes (assign / revert / write to "
+       "another path) for every copy route.",
+       "an all-default Settings written in full style is unreadable once a plugin contributes kernel options (listed finding).")
+extend("C18",
+       "A custom-isotopics density on a library solid gives the mass the input text describes under either height convention (exponent 2 "
+       "resp. 3; custom_density_mass_is_input_mass), and third-core maps with edge assemblies on the 120-degree line load, keeping every "
+       "first-third entry, and are refused only for locations outside the first third (loadThird_keeps_domain, loadThird_refuses_iff). "
+       "Tied at ComponentBlueprint.construct level for both conventions, by assembly-level mass for the default convention, and by "
+       "generated third-core documents with edge and outside cells.",
+       "assembly-level mass under cold input heights is not predicted here (it depends on the axial expansion of C12).")
+extend("C07",
+       "The label codec round-trips for all integer indices (any size, any sign; decoder as repaired by 9ee1acd); global coordinates "
+       "compose along the chain in either coordinate kind (nativeCoords), through theta-R-Z ancestors at any height "
+       "(nested_coords_add_TN).", "cos / sin of theta-R-Z levels are parameters.")
+extend("C08",
+       "All symmetry and rotation functions are proved and tied on three-index arguments (the axial index is irrelevant and preserved, "
+       "the centre cell at any k is its own orbit, 3-D hex rotation is about z), in every argument form.", "")
+extend("C04",
+       "Any interleaving of writes, deletes and re-writes on one file refines the partial map address -> statepoint (run_refines_spec), "
+       "incl. addresses differing only by label; tied to write/delete/load histories through one long-lived and a fresh Database object "
+       "with layout-borne and parameter-borne markers.",
+       "stationary blocks keep their old name after a swap, so name and assemNum differ after load (listed finding).")
+extend("C05",
+       "With entries of differing numeric kind the stored dtype is numpy's promotion of all entries and is floating whenever an entry is "
+       "(promoteAll_float, jagged_keeps_real_kind); tied to the real dataset dtype, values compared numerically on per-object-kind lists "
+       "of every container shape.", "int->real casts of the values are numpy's (oracle only).")
+extend("C06",
+       "Location-based histories, per location and batched, are modelled and proved to give each location the value of its occupant per "
+       "step whatever the order of the request and of the stored rows (locHistories_lookup, writePL_location_value); deletion and loading "
+       "are isolated per (cycle, node, label) (delete_exact) and tied through six label-taking routes; an aborted restart run keeps the "
+       "merged history.",
+       "the location pseudo-parameter and preloaded block histories are oracle-only.")
+
 NOT_YET = {}
 
 ALL = [f"C{n:02d}" for n in range(1, 21)]
